@@ -14,6 +14,7 @@ from .common import (ModelGap, Obs, Violation, World, base_result, blueprint_pro
 from .. import gen
 
 PROP = "C18"
+RUN_TIMEOUT_S = {"quick": 300, "thorough": 1200}   # thorough compiles programs of several hundred entities
 
 
 def gen_case(ch: Chooser, tier: str = "quick") -> dict:
